@@ -83,7 +83,7 @@ func runC06(r *simkit.R) {
 			a := w.addr(id)
 			err := w.shards[i].sh.MarkGarbage(a.Container(), []oid.ID{a.Object()}, meta.GarbageMarkDefault)
 			if err == nil {
-				models[i].ApplyMark(w.u.Specs[id].Cnr, []int{id}, 0)
+				models[i].ApplyMark(w.u.Specs[id].Cnr, []int{id}, zz.MarkDefault)
 			}
 			r.Logf("  mark o%d on s%d -> %v", id, i, errS(err))
 		}
